@@ -189,6 +189,11 @@ Section PLAN2.
     {| c_from_ns := c_from_ns c; c_to_ns := c_to_ns c; c_limit := 0; c_asc := c_asc c; c_cluster := c_cluster c;
        c_type := c_type c; c_finalize := c_finalize c; c_step_ns := c_step_ns c; t_gin := t_gin c; t_samples := t_samples c;
        t_ts := t_ts c; t_ts_dist := t_ts_dist c; t_m15 := t_m15 c |}.
+  Lemma nl_limit : c_limit c_nolimit = 0%Z. Proof. reflexivity. Qed.
+  Lemma nl_db : to_sqldb c_nolimit d = to_sqldb c d. Proof. reflexivity. Qed.
+  Lemma nl_asc : c_asc c_nolimit = c_asc c. Proof. reflexivity. Qed.
+  Lemma nl_base w : main_base c_nolimit w = main_base c w. Proof. reflexivity. Qed.
+  Lemma nl_leb : ts_leb c_nolimit = ts_leb c. Proof. reflexivity. Qed.
   (* the main select under the join: ORDER BY, no LIMIT *)
   Lemma es_main_nl w lfs F : ES (snd w) = Some (map fp_row F) ->
     (forall t, List.In t lfs -> stage_oracle_ok re_match parse_float (lft_stage t)) ->
@@ -197,7 +202,12 @@ Section PLAN2.
   Proof.
     intros Hw Ho.
     destruct (es_main re_match parse_float json_get hash_labels tie tie_perm c_nolimit d w lfs F Hw Ho) as [xs [Hp He]].
-    exists xs. split; [exact Hp|]. rewrite main_filtered_eq. exact He.
+    exists xs. split; [exact Hp|]. rewrite main_filtered_eq.
+    (* c_nolimit differs from c in c_limit only: fold every occurrence back, piece by piece (one conversion of the whole
+       statement took 18 s) *)
+    unfold main_select, limited in He. rewrite nl_limit in He. cbn [Z.eqb] in He.
+    rewrite nl_db, nl_asc, nl_base, nl_leb in He.
+    exact He.
   Qed.
 
   Definition jinit (tl : list series_row) (x : sample) : pstate := {| p_labels := labels_in tl x; p_fp := x_fp x |}.
@@ -571,7 +581,7 @@ Proof.
     + intros [s [kv [[<-|[]] [[<-|[]] ->]]]]. now left.
   - intros s1 s2 [<-|[]] [<-|[]] _. reflexivity.
   - intros s [<-|[]]. cbn. constructor; [intros []|constructor].
-  - intros x [<-|[<-|[]]]; exists w_series; cbn; (split; [now left|]); (split; [reflexivity|]); (split; [reflexivity|]);
+  - intros x [<-|[<-|[]]]; exists w_series; (split; [now left|]); (split; [reflexivity|]); (split; [reflexivity|]);
       vm_compute; discriminate.
 Qed.
 Example partial_parsers_guards_met :
@@ -612,7 +622,7 @@ Proof.
     + intros [s [kv [[<-|[]] [[<-|[]] ->]]]]. now left.
   - intros s1 s2 [<-|[]] [<-|[]] _. reflexivity.
   - intros s [<-|[]]. cbn. constructor; [intros []|constructor].
-  - intros x [<-|[<-|[]]]; exists w_series; cbn; (split; [now left|]); (split; [reflexivity|]); (split; [reflexivity|]);
+  - intros x [<-|[<-|[]]]; exists w_series; (split; [now left|]); (split; [reflexivity|]); (split; [reflexivity|]);
       vm_compute; discriminate.
 Qed.
 Example partial_regexp_guards_met :
